@@ -528,7 +528,8 @@ class MinMaxAggregator:
         new_terms = [Function(LOC, chain_name, [PREV, NEXT], False)] + list(terms)
 
         newargs = translation.translate_parameters(oldmax.atom.symbol.arguments)
-        newargs = [next_ if i == idx else x for i, x in enumerate(newargs)]
+        new_idx = translation.mapping[idx]  # idx counts in the head predicate, the result predicate may order differently
+        newargs = [next_ if i == new_idx else x for i, x in enumerate(newargs)]
         for arg in newargs:
             assert isinstance(arg, AST)
         chainpred = Literal(
